@@ -262,7 +262,10 @@ class ToNumpy(Contract):
         yield Case("", make_env, check)
 
     def apply(self, ex, args, kw, node):
-        raise U("tonumpy as a callee (modelled with the numeric division family)", node)
+        from contracts.numeric import tonumpy_apply
+        if len(args) == 1 and isinstance(args[0], Poly) and not kw:
+            return tonumpy_apply(ex, args[0], node)
+        raise U("tonumpy of this operand", node)
 
 
 CONTRACTS = [AsPolynomial(), Lead("coefficient"), Lead("exponent"), IsConstant(), ToNumpy()]
